@@ -28,6 +28,8 @@ def make_jobs(prop, r, n, quick):
         if prop == "C16" and r.random() < 0.5:
             ops.append({"op": "Prevent", "f": r.randint(1, nfn), "a": r.randint(0, 2), "c": r.choice(progs.CTXS),
                         "via": r.choice(["root", "nested"])})      # nested: the prevented call is made from inside a memento function
+        if prop in ("C02", "C10") and i % 3 == 0:
+            ops += directed_par_ops(r, p)
         cfg = dict(BACKENDS[i % len(BACKENDS)])
         if cfg.get("backend") == "fs" and cfg.get("budget"):
             # "Reopen": a new backend object on the same store (another worker / a later process): its cache is cold, so calls
@@ -39,6 +41,31 @@ def make_jobs(prop, r, n, quick):
                     ops.insert(r.randint(0, len(ops)), {"op": "Reopen"})
         jobs.append({"prog": p, "cfg": cfg, "ops": ops, "amax": 2})
     return jobs
+
+
+def directed_par_ops(r, prog):
+    """Directed: a root call and, at the same time from another thread, the call one of its body steps makes (same key): the nested
+    call then misses the bulk pre-check, waits for the per-call mutex and is resolved by the look-up inside it - under several
+    schedules, each from an empty store"""
+    cands = []
+    for f, fd in enumerate(prog, start=1):
+        for s in fd["body"]:
+            if s["t"] == "call" and prog[s["g"] - 1]["body"]:
+                cands.append((f, s))
+    if not cands:
+        return []
+    f, s = r.choice(cands)
+    a = r.randint(s["d"], 2)
+    c = r.choice(["none", "none", "k1"])
+    c2 = c if s["ctx"] == "inherit" else "none" if s["ctx"] == "clear" else s["ctx"]
+    ops = []
+    for p_ in r.sample([0.004, 0.01, 0.03, 0.08, 0.2], 3):
+        ops += [{"op": "ForgetAll", "f": g} for g in range(1, len(prog) + 1)]
+        calls = [[f, a, c], [s["g"], a - s["d"], c2]]
+        if r.random() < 0.5:
+            calls.reverse()
+        ops.append({"op": "Par", "calls": calls, "sched": {"random": r.randrange(1 << 30), "p": p_}})
+    return ops
 
 
 def mixed_state_batch(r, nfn):
